@@ -347,6 +347,11 @@ func (dv *zdqDrv) enumOps(y map[int]bool) []op {
 		}
 		add(op{label: lab, desc: fmt.Sprintf("Set(%d, {})", i), mutating: true, do: func() { d.Set(i, struct{}{}) }})
 	}
+	for _, i := range []int{-1, n, n + 1, math.MaxInt, math.MinInt} {
+		i := i
+		add(op{label: "Item(out of range: panics)", desc: fmt.Sprintf("Item(%s)", idxName(i)), wantPanic: true, do: func() { _ = d.Item(i) }})
+		add(op{label: "Set(out of range: panics)", desc: fmt.Sprintf("Set(%s, {})", idxName(i)), mutating: true, wantPanic: true, do: func() { d.Set(i, struct{}{}) }})
+	}
 	add(op{label: "Grow(0)", desc: "Grow(0)", mutating: true, do: func() { d.Grow(0) }})
 	if extra >= 1 {
 		add(op{label: "Grow(fits: no-op)", desc: "Grow(1)", mutating: true, do: func() { d.Grow(1) }})
